@@ -513,6 +513,10 @@ func (m *otMap) apply(proxy otProxy, plan *otShapePlan, font *Font, buffer *Buff
 
 				c.lookupIndex = lookupIndex
 				c.lookupMask = lookup.mask
+				// the base cached by the mark attachment lookups is only valid
+				// within one lookup (harfbuzz resets it in set_lookup_mask)
+				c.lastBase = -1
+				c.lastBaseUntil = 0
 				c.autoZWJ = lookup.autoZWJ
 				c.autoZWNJ = lookup.autoZWNJ
 				c.random = lookup.random
